@@ -255,10 +255,13 @@ class IndexBase(ContainerOperand):
         if not isinstance(values, str) and hasattr(values, '__len__'):
             if not values.__class__ is np.ndarray:
                 values, _ = iterable_to_array_1d(values)
-        return np.searchsorted(self.values, #type: ignore [no-any-return]
+        post = np.searchsorted(self.values,
                 values,
                 'left' if side_left else 'right',
                 )
+        if post.__class__ is np.ndarray:
+            post.flags.writeable = False
+        return post #type: ignore [no-any-return]
 
     @doc_inject(selector='searchsorted', label_type='loc (label)')
     def loc_searchsorted(self,
@@ -283,13 +286,16 @@ class IndexBase(ContainerOperand):
 
         mask = sel == length
         if not mask.any():
-            return self.values[sel] #type: ignore [no-any-return]
+            post = self.values[sel]
+            if post.__class__ is np.ndarray:
+                post.flags.writeable = False
+            return post #type: ignore [no-any-return]
 
         post = np.empty(len(sel),
                 dtype=resolve_dtype(self.dtype,
                 dtype_from_element(fill_value))
                 )
-        sel[mask] = 0 # set out of range values to zero
+        sel = np.where(mask, 0, sel) # set out of range values to zero
         post[:] = self.values[sel]
         post[mask] = fill_value
         post.flags.writeable = False
